@@ -209,9 +209,18 @@ func (s *Solver) ref(t *Term) string {
 		case "umul":
 			s.send(fmt.Sprintf("(assert (and (=> (and (>= %s 0) (>= %s 0)) (>= %s 0)) (=> (= %s 0) (= %s 0)) (=> (= %s 0) (= %s 0)) (=> (and (>= %s 1) (>= %s 0)) (>= %s %s)) (=> (and (>= %s 1) (>= %s 0)) (>= %s %s)) (=> (= %s 1) (= %s %s)) (=> (= %s 1) (= %s %s))))",
 				a, b, name, a, name, b, name, a, b, name, b, b, a, name, a, a, name, b, b, name, a))
+			// multiplying by a fixed-point factor <= 1.0 (10^18) does not increase, >= 1.0 does not decrease
+			s.send(fmt.Sprintf("(assert (=> (and (>= %s 0) (>= %s 0)) (and (=> (<= %s 1000000000000000000) (<= %s (* 1000000000000000000 %s))) (=> (>= %s 1000000000000000000) (>= %s (* 1000000000000000000 %s))) (=> (<= %s 1000000000000000000) (<= %s (* 1000000000000000000 %s))) (=> (>= %s 1000000000000000000) (>= %s (* 1000000000000000000 %s))))))",
+				a, b, a, name, b, a, name, b, b, name, a, b, name, a))
 		case "utdiv", "udiv":
 			s.send(fmt.Sprintf("(assert (and (=> (and (>= %s 0) (> %s 0)) (and (>= %s 0) (<= %s %s))) (=> (and (>= %s 0) (> %s %s)) (= %s 0)) (=> (= %s 1) (= %s %s)) (=> (and (> %s 0) (= %s %s)) (= %s 1))))",
 				a, b, name, name, a, a, b, a, name, b, name, a, a, a, b, name))
+			// (c*x) / b compared with c: ratio x/b <= 1 or >= 1  (x, b >= 0)
+			if x := t.Args[0]; x.Op == "*" && x.Args[0].IsConst() && x.Args[0].Int != nil && x.Args[0].Int.Sign() > 0 {
+				cx, xr := s.ref(x.Args[0]), s.ref(x.Args[1])
+				s.send(fmt.Sprintf("(assert (=> (and (>= %s 0) (> %s 0)) (and (=> (<= %s %s) (<= %s %s)) (=> (>= %s %s) (>= %s %s)))))",
+					xr, b, xr, b, name, cx, xr, b, name, cx))
+			}
 			// (c*b) / b = c  for b != 0
 			if x := t.Args[0]; x.Op == "*" && x.Args[0].IsConst() && x.Args[1] == t.Args[1] {
 				s.send(fmt.Sprintf("(assert (=> (not (= %s 0)) (= %s %s)))", b, name, s.ref(x.Args[0])))
